@@ -120,7 +120,8 @@ def determinism_selftest(prop, master, n=40):
         a[s] = r.digest if r.error is None else "ERR:" + r.error.splitlines()[0]
     env = dict(os.environ)
     env["PYTHONHASHSEED"] = "12345"
-    p = subprocess.run([sys.executable, "-m", "sim.cli", prop, "--digests", ",".join(map(str, seeds))],
+    # the child runs them in reverse order: state leaking from one run into the next would show as a mismatch
+    p = subprocess.run([sys.executable, "-m", "sim.cli", prop, "--digests", ",".join(map(str, reversed(seeds)))],
                        cwd=engine.VERIF, env=env, capture_output=True, text=True, timeout=900)
     try:
         b = {int(k): v for k, v in json.loads(p.stdout.strip().splitlines()[-1]).items()}
